@@ -42,6 +42,8 @@ class World:
             self.pool.started.add(n)
             self.pool.comps[n].start()
         # ground truth folded from what the directory handles
+        self.echo_mids = set()
+        self.echoes_handled = 0
         self.truth_agents = {}
         self.truth_comps = {}
         self.truth_replicas = {}
@@ -58,9 +60,18 @@ class World:
         self.owner = {}
 
     def _observe(self, kind, data):
+        if kind == "send" and data[1] == "_directory" and self.pool.current == "_directory":
+            # sent to the directory by the directory itself while it handles a message (its own Discovery instance
+            # publishing what it has just been told): an echo, not an operation of a client; the ground truth is folded
+            # from the clients' publications only
+            self.echo_mids.add(data[4])
+            return
         if kind == "deliver" and data[1] == "_directory":
             msg = data[2]
             t = msg.type
+            if data[3] in self.echo_mids:
+                self.echoes_handled += 1
+                return
             if t == "subscribe_agent" and msg.subscribe:
                 # was the agent absent from the directory when this subscription was handled ? (the directory then
                 # answers nothing, and an address cached by the subscriber from an earlier subscription stays)
@@ -302,7 +313,16 @@ def skeleton(rng):
     c = rng.choice(COMPS)
     cb, one = rng.random() < 0.7, False
     kind = rng.choice(["replica-sub-during-reregistration", "migration", "agent-rejoins", "migration-with-replicas",
-                       "several-callbacks-on-one-item"])
+                       "several-callbacks-on-one-item", "replica-dropped-then-held-again"])
+    if kind == "replica-dropped-then-held-again":
+        # what a repair does: a candidate drops its replica of the migrating computation, the new host then replicates it
+        # again, possibly on the same agent; deliveries in between are random
+        ops = [("register_computation", a, c), ("subscribe_computation", b, c, False, False), ("drain",), ("register_replica", b, c)]
+        if rng.random() < 0.5:
+            ops.append(("subscribe_replica", c3, c, cb, one))
+        ops += [("drain",), ("unregister_replica", b, c)]
+        ops += [("register_replica", b, c), ("drain",)]
+        return kind, [list(o) for o in ops]
     if kind == "several-callbacks-on-one-item":
         # two or three callbacks on the same agent / computation / replica set, one of them cancelled, then a change
         what = rng.choice(["replica", "computation", "agent"])
